@@ -112,4 +112,39 @@ Section Kernels.
           let var := sub sx2 (div (mul sx sx) n) in
           div cov var
     end.
+
+  (* ---- quantile(q, points) of execution/aggregate/scalar_table.go ---------------------------- *)
+
+  (* sort.Float64s: NaN sorts first *)
+  Definition gless (x y : V) : bool := ltb x y || (isnan x && negb (isnan y)).
+  Fixpoint ginsert (x : V) (l : list V) : list V :=
+    match l with
+    | [] => [x]
+    | y :: r => if gless y x then y :: ginsert x r else x :: l
+    end.
+  Definition gsort (l : list V) : list V := fold_right ginsert [] l.
+
+  (* the largest i <= n with i <= x (x >= 0) *)
+  Fixpoint gfloor_upto (n : nat) (x : V) : nat :=
+    match n with
+    | O => O
+    | S k => if leb (ofZ (Z.of_nat n)) x then n else gfloor_upto k x
+    end.
+
+  Definition gquantile (pinf ninf : V) (q : V) (points : list V) : V :=
+    match points with
+    | [] => nanv o
+    | _ =>
+        if isnan q then nanv o
+        else if ltb q zero then ninf
+        else if ltb one q then pinf
+        else
+          let sorted := gsort points in
+          let n := length points in
+          let rank := mul q (sub (ofZ (Z.of_nat n)) one) in
+          let lo := gfloor_upto n rank in
+          let hi := Nat.min (n - 1) (lo + 1) in
+          let weight := sub rank (ofZ (Z.of_nat lo)) in
+          add (mul (nth lo sorted (nanv o)) (sub one weight)) (mul (nth hi sorted (nanv o)) weight)
+    end.
 End Kernels.
